@@ -31,15 +31,19 @@ S_HTTP = CAT(stripped(U(lit("GET"), lit("HEAD")), Fs), lit(SP), Fs, lit(SP), str
 
 
 def s_wap_prefix(waptop):
-    return I(S_HTTP, CAT(Fs, lit(SP), stripped(CAT(lit(waptop), ALL), Fs), lit(SP), Fs))
+    # "waptop is the URL to access with WAP devices": the path IS waptop, or continues below it
+    # (waptop/..., waptop?query) -- /wapiti.txt is not under /wap
+    under = U(lit(waptop), CAT(lit(waptop), U(lit("/"), lit("?")), ALL))
+    return I(S_HTTP, CAT(Fs, lit(SP), stripped(under, Fs), lit(SP), Fs))
 
 
 # ---- Gemini
 S_GEMINI = CAT(lit("gemini://"), ALL)
 
-# ---- Spartan: ASCII; stripped line = three non-empty space fields, the third all digits
+# ---- Spartan ("host SP path-absolute SP content-length"): ASCII; stripped line = three non-empty
+# space fields, the second starting with a slash, the third all digits
 N = z3.Plus(notc(SP))
-S_SPARTAN = I(ASCII, CAT(z3.Star(WS), I(BOUNDED, CAT(N, lit(SP), N, lit(SP), I(N, z3.Plus(z3.Range("0", "9"))))), z3.Star(WS)))
+S_SPARTAN = I(ASCII, CAT(z3.Star(WS), I(BOUNDED, CAT(N, lit(SP), I(N, CAT(lit("/"), ALL)), lit(SP), I(N, z3.Plus(z3.Range("0", "9"))))), z3.Star(WS)))
 
 S_GOPHER = ALL
 
@@ -65,7 +69,10 @@ def p_http(req: str) -> bool:
 
 
 def p_wap_prefix(req: str, waptop="/wap") -> bool:
-    return p_http(req) and [x.strip() for x in req.split(SP)][1].startswith(waptop)
+    if not p_http(req):
+        return False
+    path = [x.strip() for x in req.split(SP)][1]
+    return path == waptop or path.startswith(waptop + "/") or path.startswith(waptop + "?")
 
 
 def p_gemini(req: str) -> bool:
@@ -76,7 +83,7 @@ def p_spartan(req: str) -> bool:
     if any(ord(c) > 127 for c in req):
         return False
     f = req.strip().split(SP)
-    return len(f) == 3 and all(len(x) > 0 for x in f) and all(c in "0123456789" for c in f[2])
+    return len(f) == 3 and all(len(x) > 0 for x in f) and f[1].startswith("/") and all(c in "0123456789" for c in f[2])
 
 
 def pred(kind, waptop="/wap"):
